@@ -71,9 +71,26 @@ impl Call {
 /// Perform one public codec call; the result in a canonical rendering that
 /// must be a function of the call alone.
 pub fn perform(c: &Call) -> String {
+    perform_with(c, None)
+}
+
+/// The byte-string argument a call receives from its caller (input octets
+/// for the decoders, the shared secret for hide/reveal).
+pub fn caller_buffer(c: &Call) -> Option<&Vec<u8>> {
+    match c {
+        Call::Decode { bytes, .. } | Call::Greedy { bytes } => Some(bytes),
+        Call::Hide { secret, .. } | Call::Reveal { secret, .. } => Some(secret),
+        _ => None,
+    }
+}
+
+/// As `perform`, but the caller-owned byte string is taken from `buf` (same
+/// contents, different storage) when given.
+pub fn perform_with(c: &Call, buf: Option<&[u8]>) -> String {
     let r = guard(|| match c {
         Call::Decode { bytes, opts } => {
-            let mut r = SliceReader::from(&bytes[..]);
+            let bytes: &[u8] = buf.unwrap_or(&bytes[..]);
+            let mut r = SliceReader::from(bytes);
             let res = match opts {
                 Some(o) => Message::<&[u8]>::try_read_validate(&mut r, crate_opts(Opts::from_index(*o))),
                 None => Message::<&[u8]>::try_read(&mut r),
@@ -85,7 +102,8 @@ pub fn perform(c: &Call) -> String {
             }
         }
         Call::Greedy { bytes } => {
-            let mut r = SliceReader::from(&bytes[..]);
+            let bytes: &[u8] = buf.unwrap_or(&bytes[..]);
+            let mut r = SliceReader::from(bytes);
             let v = AVP::try_read_greedy::<&[u8]>(&mut r);
             format!(
                 "{:?} rem={}",
@@ -120,6 +138,7 @@ pub fn perform(c: &Call) -> String {
         },
         Call::Hide { avp, secret, rv, lp } => match to_crate_avp(avp, &cal_bits) {
             Some(ca) => {
+                let secret: &[u8] = buf.unwrap_or(&secret[..]);
                 let h = ca.hide(secret, &RandomVector::from(*rv), lp, &[0xA5; 16]);
                 serde_json::to_string(&from_crate_avp(&h)).unwrap()
             }
@@ -135,6 +154,7 @@ pub fn perform(c: &Call) -> String {
                 attribute_type: *attr,
                 value: value.clone(),
             });
+            let secret: &[u8] = buf.unwrap_or(&secret[..]);
             match h.reveal(secret, &RandomVector::from(*rv)) {
                 Ok(a) => format!("Ok({})", serde_json::to_string(&from_crate_avp(&a)).unwrap()),
                 Err(e) => format!("Err({:?})", err_kind(&e)),
@@ -265,6 +285,12 @@ pub enum Case19 {
     /// the calls are executed once in order (recording), then again in the
     /// order given by `replay` (indices, repetitions allowed)
     History { calls: Vec<Call>, replay: Vec<usize> },
+    /// calls whose caller-owned byte strings have the same length are made
+    /// one after the other from ONE buffer that is rewritten in place
+    /// between calls; each result must equal the call's result with its own
+    /// storage on a fresh thread (a cache keyed by the identity of a buffer
+    /// instead of its contents shows up here)
+    Reuse { calls: Vec<Call> },
     /// a verdict of one of the side crates (shuttle schedule / Miri seeds)
     Side(crate::props::c19_side::SideCase),
 }
@@ -281,6 +307,46 @@ fn printable(b: &[u8]) -> String {
 fn exec_c19(case: &Case19, obs: &mut Obs) -> Result<(), Failure> {
     match case {
         Case19::Side(s) => crate::props::c19_side::exec_side(s),
+        Case19::Reuse { calls } => {
+            let n = match calls.first().and_then(caller_buffer) {
+                Some(b) => b.len(),
+                None => return Ok(()),
+            };
+            let mut shared = vec![0u8; n];
+            obs.steps += calls.len() as u64;
+            for (i, c) in calls.iter().enumerate() {
+                let own = match caller_buffer(c) {
+                    Some(b) if b.len() == n => b,
+                    _ => continue,
+                };
+                shared.copy_from_slice(own);
+                let got = perform_with(c, Some(&shared));
+                let c2 = c.clone();
+                let want = std::thread::Builder::new()
+                    .stack_size(1 << 20)
+                    .spawn(move || perform(&c2))
+                    .ok()
+                    .and_then(|h| h.join().ok());
+                if let Some(want) = want {
+                    if got != want {
+                        let cut = |s: &str| if s.len() > 200 { format!("{}...", &s[..200]) } else { s.to_string() };
+                        return Err(Failure::new(
+                            "C19",
+                            "same-result-whatever-buffer-holds-the-argument",
+                            c.name(),
+                            format!(
+                                "{} (call #{i}) with its {}-octet argument in a buffer that earlier calls had used for other contents returned {}, but {} with the same contents in fresh storage",
+                                c.name(),
+                                n,
+                                cut(&got),
+                                cut(&want)
+                            ),
+                        ));
+                    }
+                }
+            }
+            Ok(())
+        }
         Case19::Silent(call) => {
             obs.steps += 1;
             if !engine::capture_active() {
@@ -371,7 +437,7 @@ impl Scenario for C19 {
     const ID: &'static str = "C19";
     const LEVEL: &'static str = "exploration";
     fn runs(tier: Tier) -> u64 {
-        tier.pick(30_000, 3_000_000)
+        tier.pick(20_000, 2_000_000)
     }
     fn profiles() -> &'static [Profile] {
         &[Profile::Release]
@@ -409,6 +475,40 @@ impl Scenario for C19 {
             calls: hist,
             replay,
         };
+        // buffer reuse: three hides (multi-block, same secret length, different
+        // secrets), then their reveals; and decodes of same-length inputs
+        {
+            let mut sw2 = sw.clone();
+            sw2.size = SizeRegime::Typical;
+            let sl = *wl.pick(&[1usize, 5, 16, 20, 64]);
+            let mut reuse = Vec::new();
+            for _ in 0..3 {
+                let attr = *wl.pick(&[7u16, 8, 11, 26, 30]);
+                let avp = gen_avp_of(&mut wl, &sw2, attr);
+                let rvb = wl.bytes(4);
+                let ll = wl.urange(8, 40);
+                reuse.push(Call::Hide {
+                    avp,
+                    secret: wl.bytes(sl),
+                    rv: [rvb[0], rvb[1], rvb[2], rvb[3]],
+                    lp: wl.bytes(ll),
+                });
+            }
+            ctx.check::<C19>(&Case19::Reuse { calls: reuse });
+            let base = spec_encode(&gen_control(&mut wl, &sw2, 200));
+            let mut reuse = Vec::new();
+            for _ in 0..3 {
+                let mut b = base.clone();
+                for _ in 0..wl.urange(0, 3) {
+                    if !b.is_empty() {
+                        let i = wl.usize_below(b.len());
+                        b[i] ^= 1 << wl.below(8);
+                    }
+                }
+                reuse.push(Call::Decode { bytes: b, opts: Some(wl.below(8) as u8) });
+            }
+            ctx.check::<C19>(&Case19::Reuse { calls: reuse });
+        }
         ctx.obs.distinct(fnv1a(&serde_json::to_vec(&case).unwrap()));
         if ctx.run == 0 {
             let c2 = case.clone();
@@ -425,6 +525,17 @@ impl Scenario for C19 {
     fn shrink(case: &Case19) -> Vec<Case19> {
         match case {
             Case19::Side(_) => Vec::new(),
+            Case19::Reuse { calls } => {
+                let mut out = Vec::new();
+                if calls.len() > 2 {
+                    for d in (0..calls.len()).rev() {
+                        let mut c = calls.clone();
+                        c.remove(d);
+                        out.push(Case19::Reuse { calls: c });
+                    }
+                }
+                out
+            }
             Case19::Silent(call) => {
                 let mut out = Vec::new();
                 if let Call::Decode { bytes, opts } = call {
